@@ -590,6 +590,48 @@ def build_lifted_psampler_case(a, n, rep, nq, variant, state_sampler):
     return Case(entry, variant, n, run, (shots, sups), lambda got, r: cmp_counts(got, r[0], r[1]), info, seq_error=err)
 
 
+def build_wrapped_sampler_case(a, n, rep, nq, wrapper):
+    """the concurrent samplers that WRAP another concurrent sampler (algo.mitigation: post selection) must keep
+    one result per input, in input order, also for inputs whose whole result is filtered away / empty: deterministic circuits
+    (X gates only), so that the sequential wrapper around the single sampler gives the exact reference"""
+    import quri_parts.algo.mitigation.post_selection.post_selection as PS
+    cs = case_seed(a, "wrapped", wrapper, n, rep)
+    rng = random.Random(cs)
+    circs, bits, shots = [], [], []
+    for i in range(n):
+        c = QuantumCircuit(nq)
+        b = rng.getrandbits(nq)
+        for q in range(nq):
+            if (b >> q) & 1:
+                c.add_X_gate(q)
+        circs.append(c)
+        bits.append(b)
+        shots.append(rng.randint(1, 30))
+    inputs = list(zip(circs, shots))
+    info = {"entry": "wrapped:" + wrapper, "shape": "deterministic", "n": n, "qubits": nq, "case_seed": cs, "shots": shots, "outcomes": bits}
+    if True:
+        k = rng.randint(0, nq)   # keep only the outcomes with k ones: some inputs lose every shot
+
+        def filt(x):
+            return bin(x).count("1") == k
+        info["filter"] = f"popcount == {k}"
+        single = PS.create_general_post_selection_sampler(QS.create_qulacs_vector_sampler(), filt)
+
+        def call(ex, c):
+            return [dict(x) for x in PS.create_general_post_selection_concurrent_sampler(
+                QS.create_qulacs_vector_concurrent_sampler(ex, c), filt)(list(inputs))]
+    seq, err = try_seq(lambda: [dict(single(c, s)) for c, s in inputs])
+
+    def cmp(got, r):
+        if len(got) != len(r):
+            return ("result_count", f"{len(got)} results for {len(r)} inputs: {str(got)[:200]}")
+        for i, (g, e) in enumerate(zip(got, r)):
+            if g != e:
+                return ("wrong_result", f"input {i}: {g}, the sequential wrapper gives {e}")
+        return None
+    return Case("wrapped:" + wrapper, "deterministic", n, call, seq, cmp, info, seq_error=err)
+
+
 def build_overlap_case(a, n, rep, nq, variant):
     entry = "create_qulacs_vector_overlap_weighted_sum_estimator"
     cs = case_seed(a, entry, variant, n, rep)
@@ -741,6 +783,9 @@ def all_cases(a, res, ns, rep, nq, only_picklable=False):
             for n in ns:
                 for ssamp in (False, True):
                     yield build_lifted_psampler_case(a, n, rep, max(nq, 2), variant, ssamp)
+        for wrapper in ("post_selection",):
+            for n in ns:
+                yield build_wrapped_sampler_case(a, n, rep, max(nq, 2), wrapper)
 
 
 # ------------------------------------------------------------------------------------------ (2) sweep
